@@ -5,10 +5,10 @@ from props import c02text
 
 ID = 'C02'
 GENERATORS = ['gen_codepage', 'gen_formats', 'gen_sauce', 'gen_font', 'gen_palette', 'gen_icy', 'gen_c02', 'gen_filemode']
-COQ_TARGETS = ['Props/C02.vo', 'Run/RunC02.vo', 'Run/RunC02Text.vo', 'Run/RunC11.vo', 'Run/RunC17.vo']
+COQ_TARGETS = ['Props/C02.vo', 'Run/RunC02.vo', 'Run/RunC02Pal.vo', 'Run/RunC02Text.vo', 'Run/RunC11.vo', 'Run/RunC17.vo']
 PROPS_MODULE = 'Props.C02'
 THEOREMS = ['sauce_extract_total', 'sauce_split_total', 'bitfont_from_bytes_total', 'tdf_from_bytes_total', 'palette_load_total',
-            'known_1_witness', 'bin_loader_total', 'adf_loader_total', 'idf_loader_total', 'xb_loader_total',
+            'palette_load_cases', 'palette_export_total', 'palette_ase_refused', 'known_1_witness', 'bin_loader_total', 'adf_loader_total', 'idf_loader_total', 'xb_loader_total',
             'xb_compressed_reader_total', 'tnd_loader_total', 'icy_string_total', 'icy_layer_record_total',
             'icy_continuation_total', 'icy_header_total', 'icy_document_total', 'from_bytes_total', 'from_bytes_binary_total',
             'ext_table_ok',
@@ -19,7 +19,7 @@ THEOREMS = ['sauce_extract_total', 'sauce_split_total', 'bitfont_from_bytes_tota
 SWEEP_LEMMAS = ['C02DispatchProofs.ext_table_sweep (the generated extension table on the 20 listed extensions, upper case, unknown, empty)',
                 'C02Proofs.ega_offsets_small (the 16 generated EGA_COLOR_OFFSETS are < 64)']
 TRUSTED = ['Coq 8.16.1 kernel + vm_compute; no axioms (Print Assumptions: closed)',
-           'translator/gen_c02.py (FORMATS order, extension literals, shape of the dispatch in Buffer::from_bytes) and the translators of C05/C11/C16/C17/C07 whose generated constants the models use',
+           'translator/gen_c02.py (FORMATS order, extension literals, shape of the dispatch in Buffer::from_bytes; the variants of PaletteFormat and the class of every arm of load_palette / export_palette) and the translators of C05/C11/C16/C17/C07 whose generated constants the models use',
            'harness/src/c02.rs, harness/src/c05.rs (observation of a loaded buffer), props/lib_c07.py (PNG/zTXt/base64 container writer used to deliver payloads)',
            'translator/gen_filemode.py: textual re-instantiation of C01\'s parser models and weak-invariant proof scripts over Model/FileCore.v (Coq checks the result), the pin of every reader of Buffer::is_terminal_buffer',
            'Rust: Vec / slice / String::from_utf8_lossy / char::from_u32 / regex captures / str::parse / chrono / png / base64 / flate2 behave as documented (they are oracles of the models)']
@@ -27,7 +27,7 @@ UNMODELLED = ['text loaders: the sixel decode threads and the font table are ora
               'text loaders: convert_ansi_to_utf8 is the input side of the theorems (they hold for every character list); the parser models are C01\'s, made for `byte as char`: for characters >= U+10000 (a UTF-8 file behind a BOM) ASCII / Avatar truncate with `as u16`, which the models do not follow; cell content beyond (code, background) and the bold-folding loop (identity on that projection)',
               'text loaders: unbounded macro recursion (known class C02-stackoverflow:invoke_macro_by_id = C01\'s); a terminating nesting deeper than 32 is the overflow outcome of the model',
               'the PNG / zTXt / zlib / base64 container of .icy files (oracle `icy_chunks`)',
-              'Palette::load_palette as code: regex pipelines, model = C16 total functions; PaletteFormat::Ase is a stub (known finding)',
+              'Palette::load_palette / export_palette as code: the five text formats are regex pipelines, model = C16 total functions (tied by C16 and by stage C here); the arm of PaletteFormat::Ase (Err / empty vector after the fix of C02-ase-todo) is classified by the translator from its token shape',
               'time and memory (property C03): extreme declared sizes are classified C02-resource:* and listed as known',
               'Buffer::from_bytes on a path without extension (`extension().unwrap()` panics): outside the property text, observation only',
               'Layer::from_clipboard_data, Buffer::get_char on a layer whose offset is i32::MIN (overflow after a successful load): not loaders']
@@ -38,7 +38,7 @@ LEVEL_TEXT = ('full for the binary loaders (BIN, ADF, IDF, XBin incl. compressed
               '(ans/ice/diz/unknown, avt, pcb, asc, msg, an1-an9, seq, ata): from_bytes_total_unconditional has no hypothesis on the text loaders - every character list, every SAUCE record '
               '(height 0 included), parsers of C01 re-proved on a file buffer, parse_with_parser epilogue; outside two known classes (self-invoking macro = C01\'s; a sixel next to a degenerate font 0). '
               'Partial for IcyDraw (container is an oracle) and for the sixel epilogue (decode threads / font table are oracles)')
-LEVEL_NOTE = 'one totality theorem per loader over all byte strings / character lists; 11 panics found and fixed, 1 stub known, 2 known classes in the text loaders (1 new: sixel next to a degenerate font 0)'
+LEVEL_NOTE = 'one totality theorem per loader over all byte strings / character lists; 12 panics found and fixed (the last one: the todo!() arms of PaletteFormat::Ase), 2 known classes in the text loaders (1 new: sixel next to a degenerate font 0)'
 TECHNIQUE = ('checked-indexing models + induction over fuel/length (guards imply every checked read succeeds), composition with C11 split_total and C17/C05 models; text loaders: a weak invariant of the '
              'terminal core on a file buffer (widths >= 1, margins ordered, cursor >= 0, no condition on heights) kept by every operation, C01\'s character / stream scripts regenerated over it, '
              'initial state of every loader in the invariant for every SAUCE record; fuzz oracle over every extension')
@@ -53,6 +53,7 @@ LOADER_FN = {'ans': 'Ansi::load_buffer', 'icy': 'IcyDraw::load_buffer', 'idf': '
              'seq': 'Seq::load_buffer', 'ata': 'Atascii::load_buffer'}
 FMT_CODE = {'ans': 0, 'icy': 1, 'idf': 2, 'bin': 3, 'xb': 4, 'tnd': 5, 'pcb': 6, 'avt': 7, 'asc': 8, 'adf': 9, 'msg': 10, 'an1': 11, 'seq': 12, 'ata': 13}
 IMPORTS = 'From IE Require Import Run.RunC02.\nFrom IE Require Run.RunC11 Run.RunC17.\nLocal Open Scope N_scope.'
+PAL_IMPORTS = 'From IE Require Import Run.RunC02Pal.\nLocal Open Scope N_scope.'
 
 def loader_of(ext):
     return g.LOADER_OF.get(ext, ext)
@@ -271,6 +272,28 @@ def correspondence(ctx):
         if m is None or got != m:
             dis.append({'case': c[:4000], 'kind': k, 'impl': got if len(str(got)) < 300 else str(got)[:300], 'model': m if m is None or len(str(m)) < 300 else str(m)[:300]})
     errs = getattr(ctx, 'model_errors', [])[:2]
+    # (3b) palettes, all six PaletteFormat variants: load_palette on seeds / mutants (valid UTF-8 goes to the model; anything else must be Err),
+    #      export_palette of small palettes (length of the vector); PaletteFormat::Ase: Err / empty vector
+    pc = []; pe = []
+    for fmt, sd in PAL_SEEDS.items():
+        for lbl, d in [('seed', sd), ('empty', b'')] + g.mutants(rng, None, [sd], ctx.n(8, 60), trunc_limit=None):
+            if len(d) > 400: continue
+            try: text = d.decode('utf-8')
+            except UnicodeDecodeError: text = None
+            pc.append('c2pal %d %s' % (fmt, g.hexs(d)))
+            pe.append(None if text is None else 'run_pal %d %s' % (fmt, coq_list([ord(ch) for ch in text])))
+        for n in (0, 1, 16, 17):
+            pc.append('c2palx %d %d' % (fmt, n)); pe.append('run_palx %d %d' % (fmt, n))
+    pimpl = ctx.impl(pc)
+    pmodel = iter(ctx.model(PAL_IMPORTS, [e for e in pe if e is not None]))
+    for c, e, r in zip(pc, pe, pimpl):
+        m = [0] if e is None else next(pmodel)          # invalid UTF-8: `String::from_utf8` fails -> Err for the text formats, Err for Ase anyway
+        got = r[1] if r[0] == 'ok' else ([-1] if r[0] == 'panic' else [r[0]])
+        dist['palette'] = dist.get('palette', 0) + 1
+        if m is None or got != m:
+            dis.append({'case': c[:4000], 'kind': ('palette', c.split()[1], ''), 'impl': got, 'model': m})
+    cases += pc
+    errs += getattr(ctx, 'model_errors', [])[:2]
     # (4) the text loaders: whole files through Buffer::from_bytes against Model/FileLoad.v (props/c02text.py)
     tx = c02text.correspondence(ctx)
     dis += tx['disagreements']
